@@ -126,3 +126,49 @@ def gen_structure(g: Gen):
     if n_fix < 40:
         raise NotGenerated(f"only {n_fix} @processing.fix rules found among the rules format_code calls")
     g.assumptions.add("rules listed as direct-editing (not built with @processing.fix) are covered by the bounded stand-in only")
+
+
+# ----------------------------------------------------------------------------- validity typing of every text-to-text function (pyvc/validity.py)
+# functions that BUILD text themselves on the pinned tree (number of return expressions that are not VALID by the typing): bounded only.
+SELF_BUILT = {
+    "core.format_template": 1, "fixes._fix_undefined_variables": 1, "fixes._fix_variable_names": 1, "fixes.add_missing_imports": 1, "fixes.remove_duplicate_functions": 1,
+    "formatting.collapse_trailing_parentheses": 1, "formatting.format_with_black": 1, "main._keep_ignored_lines": 2, "main._multi_run_fixes": 1, "main.format_code": 3,
+    "processing._do_rewrite": 2, "processing._insert_nodes": 1, "processing.remove_nodes": 1,
+}
+
+
+def gen_validity_typing(g: Gen):
+    """one obligation per function `f(source, ...) -> str` of the package: every return expression is VALID text given that the text parameter
+    is valid (derived from the contracts of keep_syntax_tree / _replace_nodes / _apply_rewrites / fix / chain, which are proved as units)."""
+    from pyvc import validity
+    pkg = validity.Pkg()
+    keys = []
+    for k in sorted(pkg.funcs):
+        _, fn = pkg.funcs[k]
+        names = [a.arg for a in fn.args.posonlyargs + fn.args.args]
+        if names and names[0] == "source" and fn.returns is not None and ast.unparse(fn.returns) == "str":
+            keys.append(k)
+    if len(keys) < 100:
+        raise NotGenerated(f"only {len(keys)} text-to-text functions found")
+    n_vp = 0
+    for k in keys:
+        _, fn = pkg.funcs[k]
+        ok = pkg.vp(k)
+        bad = pkg.why.get(k, [])
+        allowed = SELF_BUILT.get(k, 0)
+        if ok:
+            n_vp += 1
+            g.oblige("typing", f"returns-valid-text-for-valid-input:{k}", [], z3.BoolVal(True), fn.lineno)
+        elif len(bad) <= allowed:
+            g.assumptions.add(f"{k} builds text itself ({len(bad)} return path(s) outside the typing): validity of its result is bounded only")
+            g.oblige("typing", f"no-new-unguarded-return-path:{k}", [], z3.BoolVal(True), fn.lineno)
+        else:
+            name = f"returns-valid-text-for-valid-input:{k}" if allowed == 0 else f"no-new-unguarded-return-path:{k}"
+            g.oblige("typing", name, [], z3.BoolVal(False), fn.lineno,
+                     replay=lambda m, k=k, bad=bad, allowed=allowed: {"reproduced": False, "how": "static typing: a return path hands back text that no validity guard has seen; no input is constructed",
+                                                                      "function": k, "unguarded_return_paths_on_the_pinned_tree": allowed,
+                                                                      "unguarded_return_paths_now": [f"L{ln}: return {e}" for ln, e in bad]})
+    if n_vp < 80:
+        raise NotGenerated(f"only {n_vp} functions typed valid-preserving")
+    g.assumptions.add("typing rules of pyvc/validity.py are stated, not mechanised; primitives: " + ", ".join(sorted(validity.PRIMITIVES)) + ", @processing.fix, processing.chain (their contracts are the C03 units)")
+    g.assumptions.add("text parameter = the parameter named source / new_source; other parameters are not assumed valid")
